@@ -98,7 +98,7 @@ func runCodec(r *common.Rand) {
 			codecEncode(u, p)
 		}
 	}
-	n := run.Scale(3000, 200000)
+	n := run.Scale(3000, 400000)
 	for i := 0; i < n; i++ {
 		u, p := genPart(r), genPart(r)
 		switch r.Intn(3) {
